@@ -238,6 +238,87 @@ def it_ptr(cell):
     return Ptr(r, 0)
 
 
+def guarded_equal(a, b):
+    """two values that may both be guarded: equal as written, or the first equal to the (plain) second for all inputs"""
+    if isinstance(a, Poly) and isinstance(b, Poly):
+        return a.equals(b)
+    if isinstance(b, Poly):
+        return same(a, b)
+    return repr(a) == repr(b)
+
+
+def driver_config_mismatch(it, this, cfg, expect):
+    """the driver as configured at the moment it is applied (whenever it was created) against the solver's current
+    settings; returns a description of the first difference"""
+    sysp = cfg.get('sys')
+    if not (isinstance(sysp, Ptr) and sysp.region is not None and sysp.region.cell(sysp.off) is this.value.fields['sys']):
+        return 'driver not built on this object\'s system structure'
+    if cfg.get('step') is not expect['step']:
+        return 'stepper of the driver in use is not the configured one'
+    for key, label in (('h', 'initial step'), ('abs', 'absolute tolerance'), ('rel', 'relative tolerance'), ('hmin', 'minimum step'), ('hmax', 'maximum step')):
+        v = cfg.get(key)
+        if v is None or not guarded_equal(sm.ite_apply(v, it.to_poly), sm.ite_apply(expect[key], it.to_poly)):
+            return '%s of the driver in use is %s, the solver is configured with %s' % (label, v, expect[key])
+    return None
+
+
+def driver_disposal_problem(this, d):
+    """after Evolve the driver is released, or it is owned by a smart-pointer member of the solver (which releases it)"""
+    if isinstance(d, Ptr) and d.region is not None and d.region.meta.get('freed'):
+        return None
+    for name, c in this.value.fields.items():
+        v = c.value
+        if isinstance(v, Obj) and v.rec.startswith('std::unique_ptr') and 'p' in v.fields and v.fields['p'].value == d:
+            return None
+    return 'the driver is neither released nor owned by a smart-pointer member of the solver when Evolve returns'
+
+
+def check_driver_history(db, rep):
+    """a second Evolve after each configuration setter integrates with the new setting (a driver kept between calls must
+    follow every one of them)"""
+    unit = db.unit('SQuIDS')
+    fE = db.one('SQuIDS', 'squids::SQuIDS::Evolve', 1)
+    cfg = (2, 2, 1, 1)
+    changes = [('Set_h', 'h', Poly.var('H2')), ('Set_abs_error', 'abs', Poly.var('ABS2')), ('Set_rel_error', 'rel', Poly.var('REL2')),
+               ('Set_h_min', 'hmin', Poly.var('HMIN2')), ('Set_h_max', 'hmax', Poly.var('HMAX2')), ('Set_GSL_step', 'step', Opaque('stepper', 'other'))]
+    n = 0
+    for setter, key, newval in changes:
+        fs = db.find('SQuIDS', 'squids::SQuIDS::' + setter, 1)
+        if len(fs) != 1:
+            continue
+        n += 1
+        hooks = sm.SquidsHooks(cfg[1], driver_status=0)
+        this, hooks, it = sm.new_solver(db, *cfg, hooks=hooks)
+        for name, val in (('Set_CoherentRhoTerms', 1), ('Set_AdaptiveStep', 1), ('Set_h', Poly.var('H')), ('Set_abs_error', Poly.var('ABS')), ('Set_rel_error', Poly.var('REL'))):
+            it.call(db.one('SQuIDS', 'squids::SQuIDS::' + name, 1), this, [val])
+        this.value.fields['h_min'].value = Poly.var('HMIN')
+        this.value.fields['h_max'].value = Poly.var('HMAX')
+        stp = Opaque('stepper', 'custom')
+        it.call(db.one('SQuIDS', 'squids::SQuIDS::Set_GSL_step', 1), this, [stp])
+        expect = {'step': stp, 'h': Poly.var('H'), 'abs': Poly.var('ABS'), 'rel': Poly.var('REL'), 'hmin': Poly.var('HMIN'), 'hmax': Poly.var('HMAX')}
+        bad = None
+        try:
+            it.call(fE, this, [Poly.var('dt')])
+            it.call(fs[0], this, [newval])
+            # what the solver is configured with now (a setter may adjust other settings too, e.g. the initial step)
+            expect = {'step': sm.field(this, 'step'), 'h': sm.field(this, 'h'), 'abs': sm.field(this, 'abs_error'), 'rel': sm.field(this, 'rel_error'),
+                      'hmin': sm.field(this, 'h_min'), 'hmax': sm.field(this, 'h_max')}
+            if not same(sm.ite_apply(expect[key], it.to_poly) if key != 'step' else Poly.const(0), newval if key != 'step' else Poly.const(0)) and key != 'step':
+                raise AnalysisBroken('%s did not store its argument' % setter)
+            hooks.driver = []
+            it.call(fE, this, [Poly.var('dt2')])
+        except Thrown as t:
+            bad = 'throw: %s' % t.what
+        if not bad:
+            ap = [e for e in hooks.driver if e[0] in ('apply', 'apply_fixed_step')]
+            bad = driver_config_mismatch(it, this, ap[0][-1], expect) if ap else 'driver never applied in the second call'
+        if bad:
+            rep.fail('D.driver', 'Evolve; %s; Evolve' % setter, unit.loc(fE), 'the second integration uses the setting made in between', bad, fE['name'])
+        else:
+            rep.ok('D.driver')
+    rep.floor('D.driver.history', n, 5)
+
+
 def check_driver(db, rep):
     """Evolve: driver built from the current fields; apply(&t, t+dt) or apply_fixed_step(&t, dt/nsteps, nsteps); free before throw"""
     unit = db.unit('SQuIDS')
@@ -269,23 +350,12 @@ def check_driver(db, rep):
             ev = hooks.driver
             kinds = [e[0] for e in ev]
             bad = None
-            alloc = [e for e in ev if e[0] == 'alloc']
-            if len(alloc) != 1:
-                bad = 'driver allocated %d times' % len(alloc)
+            ap0 = [e for e in ev if e[0] in ('apply', 'apply_fixed_step')]
+            expect = {'step': stp, 'h': Poly.var('H'), 'abs': Poly.var('ABS'), 'rel': Poly.var('REL'), 'hmin': Poly.var('HMIN'), 'hmax': Poly.var('HMAX')}
+            if ap0:
+                bad = driver_config_mismatch(it, this, ap0[0][-1], expect)
             else:
-                a = alloc[0][1]
-                sysp = a[0]
-                if not (isinstance(sysp, Ptr) and sysp.region is not None and sysp.region.cell(sysp.off) is this.value.fields['sys']):
-                    bad = 'driver not built on this object\'s system structure'
-                elif a[1] is not stp:
-                    bad = 'stepper passed to the driver is not the configured one'
-                elif not (it.to_poly(a[2]).equals(Poly.var('H')) and it.to_poly(a[3]).equals(Poly.var('ABS')) and it.to_poly(a[4]).equals(Poly.var('REL'))):
-                    bad = 'initial step / tolerances passed as (%s,%s,%s)' % (a[2], a[3], a[4])
-            if not bad:
-                hm = [e for e in ev if e[0] == 'gsl_odeiv2_driver_set_hmin']
-                hx = [e for e in ev if e[0] == 'gsl_odeiv2_driver_set_hmax']
-                if not (hm and it.to_poly(hm[0][1][1]).equals(Poly.var('HMIN')) and hx and it.to_poly(hx[0][1][1]).equals(Poly.var('HMAX'))):
-                    bad = 'step bounds not forwarded to the driver'
+                bad = 'driver never applied'
             if not bad:
                 ap = [e for e in ev if e[0] in ('apply', 'apply_fixed_step')]
                 sysreg = hooks.system_region
@@ -296,10 +366,7 @@ def check_driver(db, rep):
                 elif not adaptive and not (ap[0][0] == 'apply_fixed_step' and same(sm.ite_apply(ap[0][2], lambda h: h * it.to_poly(ap[0][3])), dt) and ap[0][4].region is sysreg):
                     bad = 'fixed stepping must cover dt in nsteps steps (got %s)' % (ap[0],)
             if not bad:
-                if 'free' not in kinds:
-                    bad = 'driver never freed'
-                elif kinds.index('free') < max(i for i, k in enumerate(kinds) if k in ('apply', 'apply_fixed_step')):
-                    bad = 'driver freed before use'
+                bad = driver_disposal_problem(this, ap[0][-1].get('driver'))
             if not bad and status != 0 and threw is not None:
                 tt = sm.field(this, 't')
                 if not (isinstance(tt, Poly) and tt.equals(Poly.var('t_reached'))):
@@ -365,6 +432,7 @@ def run(db, rep, tier):
         n += check_config(db, rep, cfg, tier)
     rep.floor('D.rhs', n, 64)
     check_driver(db, rep)
+    check_driver_history(db, rep)
     check_enablement(db, rep)
     import c10
     c10.check_sized_ctor(db, rep)  # the integration starts from the initial time the solver was constructed with
